@@ -4,6 +4,8 @@ package net
 
 import (
 	"fmt"
+	"os"
+	"strings"
 	"sync"
 	"sync/atomic"
 	"testing"
@@ -336,6 +338,7 @@ type c09case struct {
 	Ops     []op      `json:"calls"`
 	Failure string    `json:"failure,omitempty"`
 	Sched   schedPlan `json:"schedule_perturbation"`
+	Trap    string    `json:"trap,omitempty"`
 }
 
 var cutKinds = []struct {
@@ -364,6 +367,11 @@ func (e *c09env) backend(s session) string {
 	return e.mpxSrv.Addr
 }
 
+type presetClient struct {
+	cl    any
+	close func()
+}
+
 // runFaulted runs one session under a plan and applies the oracle; returns a failure or "".
 func (e *c09env) runFaulted(s session, plan netfx.Plan, kase *c09case) (f failure, interesting bool) {
 	px, err := netfx.NewProxy(e.backend(s))
@@ -374,7 +382,47 @@ func (e *c09env) runFaulted(s session, plan netfx.Plan, kase *c09case) (f failur
 	px.SetPlan(plan)
 	px.Hold()
 	defer px.Release()
-	cl, closeClient := e.newClient(s, px.Addr())
+	var preset *presetClient
+	if kase.Trap != "" {
+		// the first connect routine of the client is held between "connection goroutine started" and
+		// "connection registered"; the proxy starts forwarding at that moment, so a fault inside the
+		// handshake closes the connection before it is registered
+		trapDone := make(chan struct{})
+		disarm := setTrap(mpx.VerifPointClientConnStarted, func() {
+			px.Release()
+			time.Sleep(30 * time.Millisecond)
+			close(trapDone)
+		})
+		defer func() {
+			if disarm() {
+				ev.Label(c09, "connect-routine-held-during-handshake-fault", 1)
+			}
+		}()
+		// No call is made on the client until it has dialled again on its own: any call would go through
+		// the client's slow path and reconnect on demand, which is not what "reconnects by itself" means.
+		cl0, close0 := e.newClient(s, px.Addr())
+		select {
+		case <-trapDone:
+			if px.CutAt.Load() != 0 {
+				for dl := time.Now().Add(5 * time.Second); px.Accepted.Load() < 2; {
+					if time.Now().After(dl) {
+						close0()
+						return failure{"no-auto-reconnect", "the first connection of an auto-connect client died during the handshake; no call was made, and the client did not dial again by itself within 5 s"}, true
+					}
+					time.Sleep(time.Millisecond)
+				}
+			}
+		case <-time.After(faultBound):
+		}
+		preset = &presetClient{cl0, close0}
+	}
+	var cl any
+	var closeClient func()
+	if preset != nil {
+		cl, closeClient = preset.cl, preset.close
+	} else {
+		cl, closeClient = e.newClient(s, px.Addr())
+	}
 	o := &observer{start: time.Now()}
 	done := make(chan struct{})
 	go func() {
@@ -391,7 +439,7 @@ func (e *c09env) runFaulted(s session, plan netfx.Plan, kase *c09case) (f failur
 		// the connection object is recorded: Conn() returns as soon as the dial succeeds, and a
 		// counter of accepted connections read afterwards can lag behind a reconnect under load,
 		// in which case a healthy replacement would wrongly be expected to close.
-		if conn, st := mc.Conn(async.TimeoutContext(faultBound)); st.OK() {
+		if conn, st := mc.Conn(async.TimeoutContext(faultBound)); st.OK() && preset == nil {
 			o.conns = append(o.conns, conn)
 		}
 		px.Release()
@@ -470,7 +518,7 @@ func (e *c09env) runFaulted(s session, plan netfx.Plan, kase *c09case) (f failur
 		}
 		// the fault must be complete before recovery is judged (a stalled or half-closed
 		// connection is torn down a little later)
-		for deadline := time.Now().Add(faultBound); px.Live.Load() != 0 && time.Now().Before(deadline) && !(s.auto && plan.Kind == netfx.CutHalfBlackhole); {
+		for deadline := time.Now().Add(faultBound); px.PlannedLive() != 0 && time.Now().Before(deadline); {
 			time.Sleep(200 * time.Microsecond)
 		}
 		if s.auto {
@@ -612,6 +660,9 @@ func TestC09_FaultEnumeration(t *testing.T) {
 			continue
 		}
 		s := c09sessions[j.s]
+		if only := os.Getenv("VERIF_C09_ONLY"); only != "" && !strings.Contains(s.name+"/"+cutKinds[j.kind].name+"/"+fmt.Sprint(j.dir)+"/"+fmt.Sprint(j.off)+"/", only) {
+			continue
+		}
 		plan := netfx.Plan{Kind: cutKinds[j.kind].k, Dir: j.dir, After: j.off, StallFor: 40 * time.Millisecond}
 		kase := &c09case{Session: s.name, Dir: []string{"client->server", "server->client"}[j.dir], Offset: j.off, Kind: cutKinds[j.kind].name}
 		// two of three fault runs also carry a perturbation plan derived from the job number
@@ -624,8 +675,16 @@ func TestC09_FaultEnumeration(t *testing.T) {
 			}
 		}
 		remove := kase.Sched.install()
+		// auto-connect client and a cut inside the handshake: in every other run the connect routine is held
+		// between "connection goroutine started" and "connection registered" (schedule point 16) long enough for
+		// the handshake to fail and the connection to close first
+		if s.auto && j.off < 80 && i%2 == 0 {
+			kase.Trap = "connect routine held 30 ms at schedule point 16 while the stream (and the fault) proceeds"
+		}
+		t0 := time.Now()
 		f, faulted := e.runFaulted(s, plan, kase)
 		remove()
+		ev.Label(c09, "ms:"+s.name+"/"+cutKinds[j.kind].name+map[bool]string{true: "/trap", false: ""}[kase.Trap != ""], time.Since(t0).Milliseconds())
 		if f.key != "" {
 			kase.Failure = f.msg
 			ev.Violation(t, c09, f.key, kase, "%s cut %s after %d bytes (%s): %s", s.name, kase.Dir, j.off, kase.Kind, f.msg)
